@@ -6,3 +6,9 @@ claim("C01",
   "Every (schema, value) pair explored gets the verdict of an independent draft-4 / OpenAPI 3.0 evaluator working on the raw JSON schema; VisitJSON and IsMatching must agree with it in both directions and in both numeric representations. The <= 2 keyword sub-space is enumerated completely, beyond that the space is sampled (depth <= 5), so the claim is 'no disagreement in what was explored', not a proof.",
   "Trusted: internal/refschema (about 400 lines, no code shared with kin-openapi), Go regexp on the RE2=ECMA pattern subset, exact float64 lattice numbers; format/discriminator/OAS 3.1 type arrays are outside this evaluator (C12 covers them relationally).",
   "DESIGN.md#c01")
+
+claim("C12",
+  "property-based testing with a relational (metamorphic) oracle: rapid-generated schemas (formats, patterns, discriminators over $ref branches) x schema-directed values, verdict compared across 8 option sets and the IsMatching helpers; every returned schema error's JSON pointer resolved by an independent RFC 6901 walker and its quoted value compared with the value found there; native fuzzing in the thorough tier",
+  "For each generated (schema set, value) the accept/reject verdict must be identical in default, fail-fast, multi-error, customised and format-option modes and through IsMatching / IsMatchingJSON*, and each *SchemaError that is the result or a multi-error member must point inside the value (to the enclosing object for 'required') and quote the value found there. Sampled, bounded depth (<= 4).",
+  "Trusted: the default mode's verdict as the reference for the other modes (C01 separately ties it to the specification); jv.Resolve as pointer semantics. Errors nested as causes are not asserted. For the 'cannot compile pattern' error, which quotes no value, only the location is asserted.",
+  "DESIGN.md#c12")
